@@ -9,6 +9,9 @@ import (
 	"fmt"
 	"go/ast"
 	"go/token"
+	"os"
+	"path/filepath"
+	"sort"
 	"strings"
 )
 
@@ -117,6 +120,12 @@ var c19Funcs = []c19Fn{
 	{"network/transport/v2/handlers.go", "protocol", "handleTransactionListQuery"},
 	{"network/transport/v2/handlers.go", "protocol", "handleState"},
 	{"network/transport/v2/handlers.go", "protocol", "handleTransactionSet"},
+	// ---- deepening round: did:web (model NutsModel/C19/DidWeb.lean)
+	{"vdr/didweb/util.go", "", "DIDToURL"},
+	{"vdr/didweb/util.go", "", "percentDecodeString"},
+	{"vdr/didweb/util.go", "", "percentDecodeChar"},
+	{"vdr/didweb/util.go", "", "isHex"},
+	{"vdr/didweb/util.go", "", "unhex"},
 }
 
 func recvName(fd *ast.FuncDecl) string {
@@ -590,5 +599,196 @@ func extractC19() *lean {
 	bsf := get("vcr/revocation/bitstring.go")
 	v = c19ConstNat(bsf, "defaultBitstringLengthInBytes")
 	l.def("defaultBitstringLengthInBytes", "Nat", v, v)
+	c19DidWeb(l, get("vdr/didweb/util.go"), get("vdr/didweb/web.go"))
+	c19DocUnmarshals(l)
 	return l
+}
+
+// c19CharLit: a Go character literal as its byte value ("'~'" -> "126"); anything else does not elaborate in Lean
+func c19CharLit(e ast.Expr) string {
+	if bl, ok := e.(*ast.BasicLit); ok && bl.Kind == token.CHAR {
+		v := bl.Value
+		switch {
+		case len(v) == 3:
+			return fmt.Sprint(int(v[1]))
+		case v == `'\''`:
+			return "39"
+		case v == `'\\'`:
+			return "92"
+		}
+	}
+	return "unknown_char_" + strings.Map(func(r rune) rune {
+		if (r >= 'a' && r <= 'z') || (r >= 'A' && r <= 'Z') || (r >= '0' && r <= '9') {
+			return r
+		}
+		return '_'
+	}, c19Expr(e))
+}
+
+// c19SwitchCases: for every `switch <tag>` in fn, the case expressions in source order (default = "default")
+func c19SwitchCases(f *ast.File, fn, tag string, conv func(ast.Expr) string) []string {
+	var out []string
+	found := false
+	for _, d := range f.Decls {
+		fd, ok := d.(*ast.FuncDecl)
+		if !ok || fd.Name.Name != fn || fd.Body == nil {
+			continue
+		}
+		ast.Inspect(fd.Body, func(n ast.Node) bool {
+			sw, ok := n.(*ast.SwitchStmt)
+			if !ok || sw.Tag == nil || c19Expr(sw.Tag) != tag {
+				return true
+			}
+			found = true
+			for _, st := range sw.Body.List {
+				cc := st.(*ast.CaseClause)
+				for _, e := range cc.List {
+					out = append(out, conv(e))
+				}
+			}
+			return true
+		})
+	}
+	if !found {
+		return []string{"unknown_switch_missing"}
+	}
+	return out
+}
+
+// did:web facts: the character class percentDecodeChar decodes / shouldPercentEncode encodes, the content types Resolve accepts,
+// the guard in front of the slice expression of percentDecodeString, the status-code test of Resolve
+func c19DidWeb(l *lean, util, web *ast.File) {
+	dec := c19SwitchCases(util, "percentDecodeChar", "c", c19CharLit)
+	l.def("didwebDecodeSet", "List Nat", "["+strings.Join(dec, ", ")+"]", dec)
+	enc := c19SwitchCases(util, "shouldPercentEncode", "c", c19CharLit)
+	l.def("didwebEncodeSet", "List Nat", "["+strings.Join(enc, ", ")+"]", enc)
+	cts := c19SwitchCases(web, "Resolve", "ct", func(e ast.Expr) string {
+		if bl, ok := e.(*ast.BasicLit); ok && bl.Kind == token.STRING {
+			return bl.Value
+		}
+		return "unknown_content_type"
+	})
+	l.def("didwebContentTypes", "List String", "["+strings.Join(cts, ", ")+"]", cts)
+	// conditions of the `if` statements that (transitively) contain the slice expression s[i : i+3]
+	var guards []string
+	for _, d := range util.Decls {
+		fd, ok := d.(*ast.FuncDecl)
+		if !ok || fd.Name.Name != "percentDecodeString" || fd.Body == nil {
+			continue
+		}
+		var stack []ast.Node
+		ast.Inspect(fd.Body, func(n ast.Node) bool {
+			if n == nil {
+				stack = stack[:len(stack)-1]
+				return true
+			}
+			if se, ok := n.(*ast.SliceExpr); ok && c19Expr(se.X) == "s" {
+				for _, a := range stack {
+					if is, ok := a.(*ast.IfStmt); ok {
+						guards = append(guards, c19Expr(is.Cond))
+					}
+				}
+			}
+			stack = append(stack, n)
+			return true
+		})
+	}
+	l.def("didwebSliceGuards", "List String", leanStrList(guards), guards)
+	// every `if` condition of Resolve that mentions StatusCode
+	var status []string
+	for _, d := range web.Decls {
+		fd, ok := d.(*ast.FuncDecl)
+		if !ok || fd.Name.Name != "Resolve" || fd.Body == nil {
+			continue
+		}
+		ast.Inspect(fd.Body, func(n ast.Node) bool {
+			if is, ok := n.(*ast.IfStmt); ok && strings.Contains(c19Expr(is.Cond), "StatusCode") {
+				status = append(status, c19Expr(is.Cond))
+			}
+			return true
+		})
+	}
+	l.def("didwebStatusTests", "List String", leanStrList(status), status)
+}
+
+// c19DocUnmarshals: every place in the node's packages that face the network (vdr, network, discovery, auth, vcr, didman, storage) where
+// bytes are unmarshalled into a did.Document VALUE declared in the same function (`json.Unmarshal(b, &doc)`, `doc.UnmarshalJSON(b)`)
+// or handed to did.ParseDocument, with whether a call of RejectNullKeyEntries precedes it in that function.
+// go-did v0.15.0 dereferences null entries of the key arrays while it resolves relationship references.
+func c19DocUnmarshals(l *lean) {
+	var out []string
+	for _, top := range []string{"vdr", "network", "discovery", "auth", "vcr", "didman", "storage"} {
+		filepath.Walk(filepath.Join(repo, top), func(path string, info os.FileInfo, err error) error {
+			if err != nil || info.IsDir() || !strings.HasSuffix(path, ".go") || strings.HasSuffix(path, "_test.go") ||
+				strings.Contains(path, "mock") || strings.HasSuffix(path, "generated.go") || strings.HasPrefix(info.Name(), "zz_verif") {
+				return nil
+			}
+			rel, _ := filepath.Rel(repo, path)
+			_, f := parseFile(rel)
+			for _, d := range f.Decls {
+				fd, ok := d.(*ast.FuncDecl)
+				if !ok || fd.Body == nil {
+					continue
+				}
+				docs := map[string]bool{}
+				ast.Inspect(fd.Body, func(n ast.Node) bool {
+					switch x := n.(type) {
+					case *ast.ValueSpec:
+						if x.Type != nil && c19Expr(x.Type) == "did.Document" {
+							for _, id := range x.Names {
+								docs[id.Name] = true
+							}
+						}
+					case *ast.AssignStmt:
+						if x.Tok == token.DEFINE && len(x.Lhs) == 1 && len(x.Rhs) == 1 {
+							r := c19Expr(x.Rhs[0])
+							if r == "did.Document{}" || r == "&did.Document{}" || r == "new(did.Document)" {
+								docs[c19Expr(x.Lhs[0])] = true
+							}
+						}
+					}
+					return true
+				})
+				var guardPos token.Pos
+				ast.Inspect(fd.Body, func(n ast.Node) bool {
+					if ce, ok := n.(*ast.CallExpr); ok && strings.HasSuffix(c19Expr(ce.Fun), "RejectNullKeyEntries") && (guardPos == 0 || ce.Pos() < guardPos) {
+						guardPos = ce.Pos()
+					}
+					return true
+				})
+				ast.Inspect(fd.Body, func(n ast.Node) bool {
+					ce, ok := n.(*ast.CallExpr)
+					if !ok {
+						return true
+					}
+					fun := c19Expr(ce.Fun)
+					hit := false
+					switch {
+					case fun == "did.ParseDocument":
+						hit = true
+					case fun == "json.Unmarshal" && len(ce.Args) == 2:
+						a := strings.TrimPrefix(c19Expr(ce.Args[1]), "&")
+						hit = docs[a]
+					case strings.HasSuffix(fun, ".UnmarshalJSON"):
+						hit = docs[strings.TrimSuffix(fun, ".UnmarshalJSON")]
+					}
+					if hit {
+						g := "UNGUARDED"
+						if guardPos != 0 && guardPos < ce.Pos() {
+							g = "after-RejectNullKeyEntries"
+						}
+						name := fd.Name.Name
+						if r := recvName(fd); r != "" {
+							name = r + "." + name
+						}
+						out = append(out, rel+":"+name+":"+c19Expr(ce)+":"+g)
+					}
+					return true
+				})
+			}
+			return nil
+		})
+	}
+	sort.Strings(out)
+	l.def("didDocUnmarshals", "List String", leanStrList(out), out)
 }
